@@ -168,6 +168,7 @@ type world struct {
 	stepNo    int
 	wedged    bool
 	lastWait  time.Duration
+	notes     []string
 	abort     bool // go straight to the final probe
 }
 
@@ -260,14 +261,16 @@ func (w *world) recHolding(r *beginRec) bool {
 	return r.owner != nil && (r.owner.state == stInflight || r.owner.holds())
 }
 
-// beginGoroutinePastLock reports whether some goroutine is inside the
-// goroutine body of RegistryImpl.Begin and already past the engine call (it
-// may still be about to roll its transaction back).
-func beginGoroutinePastLock() bool {
+// beginGoroutineRunning reports whether some goroutine started by
+// RegistryImpl.Begin exists that is not parked inside the RW lock, i.e. one
+// that may still be about to hand over or roll back the transaction it got.
+// runtime.Stack(all) stops the world, so the answer is a consistent snapshot.
+func beginGoroutineRunning() bool {
 	buf := make([]byte, 1<<20)
 	n := runtime.Stack(buf, true)
 	for _, g := range bytes.Split(buf[:n], []byte("\n\n")) {
-		if bytes.Contains(g, []byte("(*RegistryImpl).Begin.func")) && !bytes.Contains(g, []byte("BeginTransaction")) {
+		if bytes.Contains(g, []byte("(*RegistryImpl).Begin.func")) &&
+			!bytes.Contains(g, []byte("sync.(*RWMutex).Lock(")) && !bytes.Contains(g, []byte("sync.(*RWMutex).RLock(")) {
 			return true
 		}
 	}
@@ -291,7 +294,7 @@ func (w *world) leak(needCertain bool) (desc string, found bool) {
 		}
 		if r.ghost && needCertain {
 			if !checkedStack {
-				past, checkedStack = beginGoroutinePastLock(), true
+				past, checkedStack = beginGoroutineRunning(), true
 			}
 			if past {
 				continue
@@ -505,7 +508,7 @@ func (w *world) settle() {
 				return false
 			})
 			if !ok {
-				w.blocked(fmt.Sprintf("none of %d queued begin calls", len(inf)))
+				w.blocked(fmt.Sprintf("a queued begin call (%d waiting, the first of them must go ahead)", len(inf)))
 			}
 			if got.queued {
 				w.features["queued_begin_resumed"] = true
@@ -1225,6 +1228,17 @@ func (w *world) run() {
 		})
 		if !drained {
 			w.counters["late_begin_not_drained"]++
+			for _, g := range gs {
+				act := g.acquired.Load() && g.tx != nil && txActive(g.tx)
+				w.notes = append(w.notes, fmt.Sprintf("late begin not drained: rec %d %s %s acquired=%v active=%v mode=%s trace=%s", g.n, g.path, g.mode(), g.acquired.Load(), act, w.c.Mode, strings.Join(w.trace, " | ")))
+			}
+			buf := make([]byte, 1<<20)
+			n := runtime.Stack(buf, true)
+			for _, gr := range bytes.Split(buf[:n], []byte("\n\n")) {
+				if bytes.Contains(gr, []byte("RegistryImpl")) {
+					w.notes = append(w.notes, "goroutine: "+string(gr))
+				}
+			}
 		}
 		w.probe(1)
 	}
